@@ -120,6 +120,32 @@ package mux
 //@   ensures alphaData != nil && len(alphaData) % 2 != 0 && 8 + len(alphaData) < len(data) ==> len(data) - len(bitstream) == 9 + len(alphaData)
 //@   ensures alphaData == nil ==> bitstream == data
 //
+// A frame whose payload carries an ALPH chunk is written as two chunks, which
+// only the extended layout allows: the simple layout is chosen only when no
+// frame has one (before the repair a still frame with an ALPH prefix was
+// written as one bogus "VP8 " chunk).
+//@ func (m *Muxer) hasAlphaChunk
+//@   property C18 C14
+//@   requires m != nil
+//@   modifies nothing
+//@   inline splitAlphaAndBitstream
+//@   loop 0: invariant forall j int :: 0 <= j && j <= rangeindex ==> splitAlphaAndBitstream(m.frames[j].data).0 == nil
+//@   ensures !result ==> forall j int :: 0 <= j && j < len(m.frames) ==> splitAlphaAndBitstream(m.frames[j].data).0 == nil
+//
+//@ func (m *Muxer) needsVP8X
+//@   property C18 C14
+//@   requires m != nil
+//@   modifies nothing
+//@   ensures !result ==> forall j int :: 0 <= j && j < len(m.frames) ==> splitAlphaAndBitstream(m.frames[j].data).0 == nil
+//@   ensures !result ==> m.iccData == nil && m.exifData == nil && m.xmpData == nil
+//
+//@ func (m *Muxer) Assemble
+//@   property C18 C14
+//@   requires m != nil && w != nil
+//@   modifies *
+//@   abstract validate, assembleSimple, assembleExtended
+//@   callsite assembleSimple: assert forall j int :: 0 <= j && j < len(m.frames) ==> splitAlphaAndBitstream(m.frames[j].data).0 == nil
+//
 // One ANMF chunk: 8-byte header whose size field equals the number of payload
 // bytes actually written after it (frame header + sub-chunks), even total.
 //@ func (m *Muxer) writeANMFChunk
